@@ -10,6 +10,8 @@ import (
 	"fmt"
 	"io"
 	"reflect"
+	"strings"
+	"sync"
 
 	"github.com/segmentio/encoding/thrift"
 )
@@ -302,6 +304,9 @@ func c13Vector(c *Ctx, raw stdjson.RawMessage) {
 		for i := 0; i < tMaxTable; i++ {
 			salts = append(salts, i)
 		}
+	}
+	if hasBinary(v.Layout) && (len(v.Layout) == 1 || r.intn(8) == 0) {
+		salts = append(salts, tBigSalt+r.intn(26)) // byte sequences above the readers' 4096-byte threshold
 	}
 	for _, salt := range salts {
 		for _, pn := range protoNames {
@@ -659,6 +664,9 @@ func c08Run(c *Ctx, k thriftCase) {
 			return
 		}
 		for i := 0; i < len(b); i++ {
+			if len(b) > 2000 && i > 40 && i < len(b)-40 && i%257 != 0 && (i+2)%4096 > 4 {
+				continue // long encodings: the ends, every 257th offset and the offsets around the multiples of 4096
+			}
 			c.Eval(1)
 			_, derr, pan := decode(b[:i], false)
 			if pan != "" {
@@ -850,6 +858,54 @@ func c08Readers(c *Ctx, k thriftCase, p thrift.Protocol, b []byte, fail func(api
 	}
 }
 
+var c08LongOnce sync.Map
+
+// c08LongValue: ReadBytes / ReadString / Unmarshal into a top-level string, []byte and []string on a value longer
+// than 4096 bytes whose payload is cut short (and on a huge declared length with a few bytes behind it)
+func c08LongValue(c *Ctx, pn string) {
+	if _, done := c08LongOnce.LoadOrStore(pn, true); done {
+		return
+	}
+	p := protoOf(pn)
+	for _, n := range []int{4096, 4097, 5000, 70000} {
+		payload := []byte(strings.Repeat("L", n))
+		full, err := thrift.Marshal(p, payload)
+		if err != nil {
+			continue
+		}
+		list, _ := thrift.Marshal(p, []string{"a", string(payload)})
+		for _, cut := range []int{1, 2, 100, 4095, 4096, 4097, n / 2, n - 1} {
+			if cut >= n {
+				continue
+			}
+			in := full[:len(full)-cut]
+			k := thriftCase{Proto: pn, What: fmt.Sprintf("long value of %d bytes, %d missing", n, cut)}
+			check := func(api string, err error, pan string) {
+				c.Eval(1)
+				if pan != "" {
+					c.Diverge("C08", api+"["+pn+"]", "an error, no panic", pan, "", k)
+				} else if err == nil {
+					c.Diverge("C08", api+"["+pn+"]", "unexpected-EOF class error (the value is cut short)", "nil error", "", k)
+				}
+			}
+			var e error
+			pan := protect(func() { _, e = p.NewReader(bytes.NewReader(in)).ReadBytes() })
+			check("Reader.ReadBytes", e, pan)
+			pan = protect(func() { _, e = p.NewReader(bytes.NewReader(in)).ReadString() })
+			check("Reader.ReadString", e, pan)
+			var s string
+			pan = protect(func() { e = thrift.Unmarshal(p, in, &s) })
+			check("thrift.Unmarshal(*string)", e, pan)
+			var bs []byte
+			pan = protect(func() { e = thrift.Unmarshal(p, in, &bs) })
+			check("thrift.Unmarshal(*[]byte)", e, pan)
+			var ss []string
+			pan = protect(func() { e = thrift.Unmarshal(p, list[:len(list)-cut], &ss) })
+			check("thrift.Unmarshal(*[]string)", e, pan)
+		}
+	}
+}
+
 var sub1AltLayout = []tField{{ID: 1, Ty: "I16"}, {ID: 2, Ty: "BOOL"}}
 
 // altType: t with every occurrence of the nested struct type replaced by a struct whose field 1 is an i16
@@ -938,6 +994,13 @@ func c08Vector(c *Ctx, raw stdjson.RawMessage) {
 	salt := r.intn(tMaxTable)
 	l := tlift{salt}
 	for _, pn := range []string{"binary", "compact"} {
+		// values above the readers' 4096-byte threshold, cut everywhere that matters; and the Reader methods on a
+		// long value cut short (nothing else follows: the error must come from the value itself)
+		if hasBinary(v.Layout) && (len(v.Layout) == 1 || r.intn(6) == 0) {
+			c.Case()
+			c08Run(c, thriftCase{Layout: v.Layout, Vals: v.Vals, Salt: tBigSalt + r.intn(26), Proto: pn, What: "prefixes"})
+			c08LongValue(c, pn)
+		}
 		for _, what := range []string{"unknown-fields", "prefixes", "missing-required", "type-mismatch"} {
 			c.Case()
 			c08Run(c, thriftCase{Layout: v.Layout, Vals: v.Vals, Salt: salt, Proto: pn, What: what})
@@ -978,6 +1041,11 @@ func c08Vector(c *Ctx, raw stdjson.RawMessage) {
 func c08Replay(c *Ctx, raw stdjson.RawMessage) {
 	var k thriftCase
 	if stdjson.Unmarshal(raw, &k) == nil {
+		if strings.HasPrefix(k.What, "long value") {
+			c08LongOnce.Delete(k.Proto)
+			c08LongValue(c, k.Proto)
+			return
+		}
 		c08Run(c, k)
 	}
 }
